@@ -141,7 +141,7 @@ def r02a(R):
                     % sym)
 
 
-@rule('R02.b', ('C02', 'C06'), 'precedence order relation and associativity '
+@rule('R02.b', ('C02', 'C06', 'C01'), 'precedence order relation and associativity '
       '(Token.prec / Token.assoc)', floor=15 + 14,
       decides='^ tighter than * / %, tighter than + -, tighter than '
               'comparisons, tighter than and, tighter than or; ^ groups right '
